@@ -28,11 +28,11 @@ func init() {
 }
 
 type pipeConstsT struct {
-	Slots   int `json:"slots"`
-	Cap     int `json:"cap"`
-	Thresh  int `json:"thresh"`  // largest message length that takes the sync path
-	SyncMax int `json:"syncmax"` // index buffers the densest message of that length needs
-	FlushAt int `json:"flush_at"`
+	Slots     int  `json:"slots"`
+	Cap       int  `json:"cap"`
+	Thresh    int  `json:"thresh"`  // largest message length that takes the sync path
+	SyncMax   int  `json:"syncmax"` // index buffers the densest message of that length needs
+	FlushAt   int  `json:"flush_at"`
 	DenseHang bool `json:"dense_hang"`
 }
 
